@@ -85,7 +85,26 @@ def replay_path(make_adapter, init_state, steps, free_run=True, obs_out=None):
         cs = canon(s)
         obs.append({'act': {'name': 'Init'}, 'state': _Snap(cs)})
         if cs != init_state:
-            return 0, Divergence('init', -1, acts, json.loads(init_state), s, obs)
+            d = Divergence('init', -1, acts, json.loads(init_state), s, obs)
+            if free_run:
+                # the implementation starts out differently: what it goes on to do is still observed
+                if hasattr(ad, 'set_free'):
+                    ad.set_free()
+                for act2, _ in steps:
+                    try:
+                        o2 = ad.step(act2) or act2
+                        obs.append({'act': o2, 'state': _Snap(canon(_norm(ad, ad.project())))})
+                    except Unrealizable:
+                        continue
+                    except Exception:
+                        break
+                if hasattr(ad, 'quiesce'):
+                    try:
+                        for a2, s2 in ad.quiesce():
+                            obs.append({'act': a2, 'state': _Snap(canon(_norm(ad, s2)))})
+                    except Exception:
+                        d.note = 'quiesce raised: ' + traceback.format_exc()
+            return 0, d
         for i, (act, exp) in enumerate(steps):
             try:
                 oact = ad.step(act) or act
